@@ -15,7 +15,10 @@ any length.  This file ties the model to /repo:
  (3) the property stated directly on the implementation (oracle): k-th read served
      by the program's inputs == inputs[k mod n], 0 without inputs, implicit reads in
      a call cycle over the call's arguments, explicit reads inside still advance the
-     shared cursor; plus programs with `+`, `_` whose results only show sums.
+     shared cursor; plus programs with `+`, `_` whose results only show sums;
+ (4) the same oracle on programs in which every kind of body (λ, ƛ ' µ, named function,
+     for / while loop, if) is left early in every way (`X`, `x`, recursion) and reads
+     follow at the outer level and in an enclosing call.
 """
 from __future__ import annotations
 
@@ -636,6 +639,411 @@ def _lossy(items):
             yield from _lossy(it[3])
 
 
+# ----------------------------------------------------------------------------
+# (4) scopes that are LEFT EARLY, followed by reads (oracle only)
+# ----------------------------------------------------------------------------
+# Family added after a seeded change that dropped `ctx.inputs.pop()` from the code emitted
+# for `X` inside a λ: parts (1)-(3) only ever left a call through its normal epilogue, so
+# a scope push / pop that is unbalanced on another way out of a body was invisible.
+# General family: every kind of body the language has (λ…;† of every written arity, the
+# map / filter / sort lambdas ƛ…; '…; µ…;, named functions, for loops, both forms of while
+# loop, ifs, nested in each other) is left in every way the language offers (`X`, `x`,
+# directly, under an executed / skipped / input-dependent `[…]`, from a loop nested in the
+# body, from a recursive call made with `x`), and reads of every kind follow at the outer
+# level and inside an enclosing call.  Nothing is specific to one element or one kind of
+# body: the same exits and the same following reads are applied to all of them.
+#
+# Additional items (the stack is empty between items, so every pop is an implicit read):
+#   ("X",) ("x",)          the early-exit elements, wherever they are written
+#   ("REC",)               ¥0>[¥‹£x⅛]   guarded recursion, only written directly in a λ body
+#   ("SR", k)              k£           set the register (recursion / while budget)
+#   ("IF", cond, then, else)   cond [then|else]   cond: ("lit", 0|1) | ("E",) | ("I",)
+#   ("FOR", cnt, body)     cnt (body)             cnt like cond
+#   ("WH", k, form, body)  k£{¥‹£¥0<[X] body}  (form "inf")   k£{¥0>|¥‹£ body}  (form "cond")
+#   ("MAP", op, lits, body)    ⟨a|b⟩ op ⅛ body ; ∑⅛   (µ: …;⅛)   op in ƛ ' µ, one call per item
+#   ("L", …) ("F", …)      as above, bodies may hold every item
+# What `X` / `x` do to the CONTROL FLOW is not part of this property; the interpreter below
+# takes it as the language has it (env.assume): X returns from a λ (after the λ's implicit
+# read of its result), breaks a loop, and does nothing in ƛ ' µ bodies, named functions and
+# at top level; x calls the enclosing λ again, continues a for loop, reads nothing elsewhere.
+# `x` is not written where it would refer to a WHILE loop: the emitted `continue` skips the
+# re-evaluation of the loop condition and the loop then goes on or stops depending on the
+# Python variable `condition` that every `[…]` of the body also assigns - which iterations
+# run is a control-flow matter outside this property (the reads that do happen are cyclic).
+
+class _Break(Exception):
+    pass
+
+
+class _Continue(Exception):
+    pass
+
+
+class _Return(Exception):
+    pass
+
+
+class OutOfFuel(Exception):
+    pass
+
+
+BASE_KINDS = ("E", "I", "EW", "P", "D", "EP")
+
+
+def xcompile(items, defs):
+    out = []
+    for it in items:
+        k = it[0]
+        if k in BASE_KINDS:
+            out.append(compile_items([it], defs))
+        elif k == "X":
+            out.append("X")
+        elif k == "x":
+            out.append("x")
+        elif k == "REC":
+            out.append("¥0>[¥‹£x⅛]")
+        elif k == "SR":
+            out.append(f" {it[1]}£")
+        elif k == "IF":
+            out.append(_cond_text(it[1]) + "[" + xcompile(it[2], defs) + ("" if it[3] is None else "|" + xcompile(it[3], defs)) + "]")
+        elif k == "FOR":
+            out.append(_cond_text(it[1]) + "(" + xcompile(it[2], defs) + ")")
+        elif k == "WH":
+            out.append(f" {it[1]}£" + "{" + ("¥‹£¥0<[X]" if it[2] == "inf" else "¥0>|¥‹£") + xcompile(it[3], defs) + "}")
+        elif k == "MAP":
+            _, op, lits, body = it
+            out.append("⟨" + "|".join(str(x) for x in lits) + "⟩" + op + "⅛" + xcompile(body, defs) + ";" + ("⅛" if op == "µ" else "∑⅛"))
+        elif k == "L":
+            _, arity, lits, body, short = it
+            head = "λ" if (arity == 1 and short) else f"λ{arity}|"
+            pre = " ".join(str(x) for x in lits)
+            out.append((" " + pre if pre else "") + head + "⅛" * arity + xcompile(body, defs) + ";†⅛")
+        elif k == "F":
+            _, arity, lits, body, name = it
+            defs.append(f"@{name}:{arity}|" + "⅛" * arity + xcompile(body, defs) + ";")
+            pre = " ".join(str(x) for x in lits)
+            out.append((" " + pre if pre else "") + f"@{name};")
+        else:
+            raise ValueError(it)
+    return "".join(out)
+
+
+def _cond_text(c):
+    return f" {c[1]}" if c[0] == "lit" else "?" if c[0] == "E" else ""
+
+
+class XState:
+    def __init__(self, fuel=250):
+        self.reg = 0          # ctx.register starts at 0
+        self.fuel = fuel
+        self.exits = collections.Counter()   # (way out, kind of body) actually taken
+        self.reads_after_exit = 0
+
+
+def _cond_val(c, sp):
+    return c[1] if c[0] == "lit" else sp.explicit() if c[0] == "E" else sp.implicit()
+
+
+def xexpect(items, sp, recs, kind, lam, st):
+    """The cyclic-stream property applied to a program of the family: appends to recs what
+    the global array must hold.  kind: what an early exit written here refers to
+    ("lam" a λ body, "loop" a for loop, "loopw" a while loop, "other" everything else);
+    an `[…]` passes the kind of its surroundings on."""
+    for it in items:
+        st.fuel -= 1
+        if st.fuel < 0 or len(recs) > 400:
+            raise OutOfFuel()
+        k = it[0]
+        if k in BASE_KINDS:
+            expected_records([it], sp, recs)
+            if st.exits and k != "D":
+                st.reads_after_exit += 1
+        elif k == "X":
+            if kind == "lam":
+                st.exits["X", "λ"] += 1
+                raise _Return()
+            if kind in ("loop", "loopw"):
+                st.exits["X", "for" if kind == "loop" else "while"] += 1
+                raise _Break()
+        elif k == "x":
+            if kind == "loop":
+                st.exits["x", "for"] += 1
+                raise _Continue()
+            if kind in ("lam", "loopw"):
+                raise ValueError("bare x in a λ body or a while loop: the generator does not write it")
+        elif k == "REC":
+            if st.reg > 0:
+                st.reg -= 1
+                st.exits["x", "λ"] += 1
+                _call_lambda(lam, [], sp, recs, st)
+        elif k == "SR":
+            st.reg = it[1]
+        elif k == "IF":
+            if _cond_val(it[1], sp):
+                xexpect(it[2], sp, recs, kind, lam, st)
+            elif it[3] is not None:
+                xexpect(it[3], sp, recs, kind, lam, st)
+        elif k == "FOR":
+            n = _cond_val(it[1], sp)
+            for _ in range(max(0, n)):
+                try:
+                    xexpect(it[2], sp, recs, "loop", lam, st)
+                except _Break:
+                    break
+                except _Continue:
+                    continue
+        elif k == "WH":
+            st.reg = it[1]
+            while True:
+                if it[2] == "cond" and not st.reg > 0:
+                    break
+                st.reg -= 1
+                if it[2] == "inf" and st.reg < 0:
+                    break
+                st.fuel -= 1
+                try:
+                    xexpect(it[3], sp, recs, "loopw", lam, st)
+                except _Break:
+                    break
+        elif k == "MAP":
+            _, op, lits, body = it
+            rets = []
+            for v in lits:
+                sp.enter([v])
+                recs.append(v)
+                xexpect(body, sp, recs, "other", None, st)
+                rets.append(sp.implicit())          # res = [pop(stack, 1, ctx)] on the empty stack
+                sp.exit()
+            if op == "ƛ":
+                recs.append(sum(rets))
+            elif op == "'":
+                recs.append(sum(v for v, r in zip(lits, rets) if r))
+            else:
+                recs.append([v for _, v in sorted(zip(rets, lits), key=lambda t: t[0])])
+        elif k == "L":
+            _call_lambda(it, it[2], sp, recs, st)
+        elif k == "F":
+            arity, lits, body = it[1], it[2], it[3]
+            reads = [sp.implicit() for _ in range(arity - len(lits))]
+            callee = lits[::-1] + reads
+            sp.enter(callee)
+            recs.extend(callee[::-1][:arity])
+            xexpect(body, sp, recs, "other", None, st)
+            sp.exit()
+        else:
+            raise ValueError(it)
+
+
+def _call_lambda(it, lits, sp, recs, st):
+    arity, body = it[1], it[3]
+    reads = [sp.implicit() for _ in range(arity - len(lits))]   # missing arguments: read at the caller's depth
+    callee = lits[::-1] + reads                                  # bottom .. top
+    sp.enter(callee)
+    recs.extend(callee[::-1][:arity])
+    try:
+        xexpect(body, sp, recs, "lam", it, st)
+    except _Return:
+        pass
+    v = sp.implicit()          # the λ's result: popped from its empty stack, on both ways out
+    sp.exit()
+    recs.append(v)
+
+
+def xgen(rng, depth, kind, names, budget, lossy):
+    items = []
+    n = rng.randint(2, 5) if depth == 1 else rng.randint(0, 3)
+    for _ in range(n):
+        if budget[0] <= 0:
+            break
+        budget[0] -= 1
+        r = rng.random()
+        if r < 0.34:
+            if lossy and rng.random() < 0.3:
+                items.append((rng.choice(["P", "D", "EP"]),))
+            else:
+                items.append(rng.choice([("E",), ("I", 1), ("I", 1), ("I", 2), ("I", 3), ("EW", 2)]))
+        elif r < 0.48:
+            items.append(("X",))
+        elif r < 0.56:
+            if kind == "lam":
+                items.append(("REC",))
+            elif kind != "loopw":
+                items.append(("x",))
+            else:
+                items.append(("X",))
+        elif depth >= 4:
+            items.append(("I", 1))
+        elif r < 0.66:
+            cond = rng.choice([("lit", 0), ("lit", 1), ("lit", 1), ("E",), ("I",)])
+            then = xgen(rng, depth + 1, kind, names, budget, lossy)
+            els = xgen(rng, depth + 1, kind, names, budget, lossy) if rng.random() < 0.4 else None
+            items.append(("IF", cond, then, els))
+        elif r < 0.72:
+            cnt = rng.choice([("lit", 1), ("lit", 2), ("lit", 2), ("lit", 3), ("lit", 0), ("E",), ("I",)])
+            items.append(("FOR", cnt, xgen(rng, depth + 1, "loop", names, budget, lossy)))
+        elif r < 0.78:
+            form = rng.choice(["inf", "cond"])
+            items.append(("WH", rng.randint(1, 3), form, xgen(rng, depth + 1, "loopw", names, budget, lossy)))
+        elif r < 0.84:
+            op = rng.choice("ƛ'µ")
+            lits = rng.sample(range(10 * depth + 1, 10 * depth + 9), rng.choice([0, 1, 2, 2, 3]))
+            items.append(("MAP", op, lits, xgen(rng, depth + 1, "other", names, budget, lossy)))
+        else:
+            arity = rng.choice([0, 1, 1, 2, 2, 3])
+            nl = rng.randint(0, arity)
+            lits = [10 * depth + 1 + i + 3 * rng.randint(0, 1) for i in range(nl)]
+            if rng.random() < 0.25 and names:
+                items.append(("F", arity, lits, xgen(rng, depth + 1, "other", names, budget, lossy), names.pop()))
+            else:
+                if rng.random() < 0.4:
+                    items.append(("SR", rng.randint(1, 2)))
+                items.append(("L", arity, lits, xgen(rng, depth + 1, "lam", names, budget, lossy), rng.random() < 0.5))
+    return items
+
+
+def exit_sweep():
+    """Every kind of body x every way of leaving it x the reads that follow x the place the
+    whole thing is written in.  Returns a list of item lists."""
+    I1, I2, E, X = ("I", 1), ("I", 2), ("E",), ("X",)
+    tails = [[I2], [E, I1], [I1, E, I2]]
+
+    def ways(kind):
+        again = ("REC",) if kind == "lam" else X if kind == "loopw" else ("x",)
+        return [
+            [],
+            [X],
+            [I1, X, I1],
+            [("IF", ("lit", 1), [X], None), I1],
+            [("IF", ("lit", 0), [X], None), I1],
+            [("IF", ("E",), [X], [I1]), I1],
+            [I1, ("IF", ("I",), [X, I1], None)],
+            [("FOR", ("lit", 1), [X], ), I1],
+            [("WH", 2, "inf", [I1, X]), I1],
+            [again, I1],
+            [I1, ("IF", ("lit", 1), [again], None), I1],
+            [("L", 1, [31], [X], True), I1],
+            [("L", 1, [], [I1, ("IF", ("lit", 1), [X], None), I1], False), X, I1],
+        ]
+
+    def bodies():
+        for arity, lits in ((0, []), (1, [31]), (1, []), (2, [31, 32]), (2, [31]), (3, [])):
+            yield "lam", lambda b, a=arity, l=lits: [("SR", 1), ("L", a, list(l), b, False)]
+        yield "lam", lambda b: [("L", 1, [31], b, True)]
+        for op in "ƛ'µ":
+            yield "other", lambda b, o=op: [("MAP", o, [32, 31], b)]
+        yield "other", lambda b: [("F", 1, [31], b, "fa")]
+        yield "other", lambda b: [("F", 2, [], b, "fa")]
+        yield "loop", lambda b: [("FOR", ("lit", 2), b)]
+        yield "loop", lambda b: [("FOR", ("E",), b)]
+        yield "loopw", lambda b: [("WH", 2, "inf", b)]
+        yield "loopw", lambda b: [("WH", 2, "cond", b)]
+
+    outers = [
+        lambda s, t: s + t,
+        lambda s, t: [("L", 1, [21], s + t, False)] + t,
+        lambda s, t: [("L", 0, [], s + t, False)] + t,
+        lambda s, t: [("L", 2, [], s + t, False)] + t,
+        lambda s, t: [("MAP", "ƛ", [21, 22], s + t)] + t,
+        lambda s, t: [("FOR", ("lit", 2), s + t)] + t,
+        lambda s, t: [("F", 1, [21], s + t, "fb")] + t,
+    ]
+    out = []
+    for kind, mk in bodies():
+        for w in ways(kind):
+            for t in tails:
+                for o in outers:
+                    out.append(o(mk(list(w)), list(t)))
+    return out
+
+
+EXIT_INPUT_LISTS = [[], [3], [3, 4, 5], [0, 7], [5, 0, 0, 6]]
+
+
+def _count_x(items, c):
+    for it in items:
+        c[it[0]] += 1
+        for sub in it[1:]:
+            if isinstance(sub, list) and sub and isinstance(sub[0], tuple):
+                _count_x(sub, c)
+
+
+def exits_part(env, stats):
+    V.import_repo()
+    jobs = []
+    sweep = exit_sweep()
+    lists = EXIT_INPUT_LISTS if env.thorough else [EXIT_INPUT_LISTS[0], EXIT_INPUT_LISTS[2], EXIT_INPUT_LISTS[3]]
+    for i, items in enumerate(sweep):
+        if env.thorough:
+            chosen = lists
+        else:
+            # quick tier: the three lists (none / three values / with zeros) in rotation, a second one for a random half
+            chosen = [lists[i % 3]] + ([lists[(i + 1) % 3]] if env.rng.random() < 0.5 else [])
+        for ins in chosen:
+            jobs.append((items, ins))
+    nsweep = len(jobs)
+    n = env.budget(2000, 25000)
+    for i in range(n):
+        names = list(NAMES)
+        env.rng.shuffle(names)
+        items = xgen(env.rng, 1, "other", names, [env.rng.randint(4, 16)], i % 4 == 3)
+        if i % 5 == 0:
+            ins = [env.rng.randint(0, 9) for _ in range(env.rng.randint(0, 4))]
+        else:
+            ins = list(env.rng.choice(EXIT_INPUT_LISTS))
+        jobs.append((items, ins))
+    work, seen = [], set()
+    for items, ins in jobs:
+        sp, exp, st = Spec(ins), [], XState()
+        try:
+            xexpect(items, sp, exp, "other", None, st)
+        except OutOfFuel:
+            stats["exit_discarded"] += 1       # too long a run under the property's own reading: not used
+            continue
+        defs = []
+        body = xcompile(items, defs)
+        prog = "".join(defs) + body + "¾"
+        key = V.canon([prog, ins])
+        if key in seen:
+            continue
+        seen.add(key)
+        work.append((prog, [str(x) for x in ins], items, ins, exp, sp.k, st))
+    nrand = len(work)
+    work.sort(key=lambda w: (len(w[0]), len(w[1])))      # the first failing input reported is a shortest program
+    t0 = time.time()
+    res = V.pmap(run_program, [(w[0], w[1]) for w in work], timeout=10)
+    V.log(f"[C11] {len(work)} early-exit programs run ({time.time() - t0:.1f}s)")
+    keys, late = [], []
+    for (prog, sins, items, ins, exp, k, st), (status, val) in zip(work, res):
+        inp = {"kind": "program", "program": prog, "inputs": sins}
+        _count_x(items, stats["exit_items"])
+        stats["exit_ways"].update(st.exits)
+        if st.exits and st.reads_after_exit:
+            stats["exit_then_read"] += 1
+        if status != "ok":
+            stats["caught"]["early-exit-oracle"] += 1
+            env.fail(inp, f"program does not finish normally: {status} {val}", cls="exit-program-error")
+            continue
+        got, fin, ut = val
+        if got != exp:
+            stats["caught"]["early-exit-oracle"] += 1
+            env.fail(inp, f"recorded reads {got}; the property requires {exp} (⅛ records each value read; pairs are [later, earlier]; "
+                          f"ways out taken: {sorted(' in '.join(w) for w in st.exits)})", cls="exit-program")
+        elif fin != [[list(ins), k]] or ut:
+            # reported after the programs in which a value READ is wrong (those show the property's own observable)
+            late.append((inp, f"final ctx.inputs {fin} use_top_input={ut}; the property requires one scope with the cursor at {k}"))
+        if exp:
+            keys.append(V.canon([prog, ins]))
+    for inp, what in late:
+        stats["caught"]["early-exit-oracle"] += 1
+        env.fail(inp, what, cls="exit-program")
+    env.count(len(work), keys)
+    stats["exit_programs"] = len(work)
+    stats["exit_sweep"] = nsweep
+    if work:
+        w = work[len(work) // 2]
+        env.sample({"early_exit_program": {"program": w[0], "inputs": w[1]}, "required_records": w[4]})
+
+
 def run(env):
     env.rule = ("(1) read histories (ops: explicit `?`, implicit pop of 0-3 missing items, lambda / function scope push with 0-3 arguments, "
                 "scope pop; never a pop at depth 1) applied to the real Context with the template statements taken from the current sources: "
@@ -645,10 +1053,19 @@ def run(env):
                 "run through execute_vyxal; recorded values decoded to a history and compared with the model in Coq. "
                 "(3) oracle on the implementation for all of the above and for programs with +⅛ _ ?+⅛: k-th read served by the program inputs == "
                 "inputs[k mod n], 0 without inputs, implicit reads in a call cycle over its arguments (top of the callee's stack first), final cursor == "
-                "number of reads served. Non-trivial = at least one value is read; distinct by (inputs, history) or (program, inputs).")
-    stats = {"len": collections.Counter(), "ops": collections.Counter(), "prog_items": collections.Counter(), "prog_len": collections.Counter(), "caught": collections.Counter()}
+                "number of reads served. "
+                "(4) oracle on programs in which a body is LEFT EARLY and reads follow: every kind of body (λn|…;† with n = 0..3 and literal or implicit "
+                "arguments, ƛ…; '…; µ…; over list literals, @f:n|…;, n(…), ?(…), k£{¥‹£¥0<[X]…}, k£{¥0>|¥‹£…}, c[…|…] with a literal / explicit / implicit "
+                "condition) x every way out (X or x directly, after a read, under an executed / skipped / input-dependent if, from a nested loop, from a "
+                "nested λ, guarded recursion ¥0>[¥‹£x⅛]) x following reads (\"⅛ | ?⅛⅛ | ⅛?⅛\"⅛) x written at top level / in a λ of arity 0, 1, 2 / in a ƛ / "
+                "in a loop / in a named function, x one of 3 input lists in rotation and a second for a random half (thorough: 5 lists for all); plus random programs over the same items, nesting <= 4; the global array "
+                "and the final ctx.inputs compared with the cyclic-stream specification. "
+                "Non-trivial = at least one value is read; distinct by (inputs, history) or (program, inputs).")
+    stats = {"len": collections.Counter(), "ops": collections.Counter(), "prog_items": collections.Counter(), "prog_len": collections.Counter(), "caught": collections.Counter(),
+             "exit_items": collections.Counter(), "exit_ways": collections.Counter(), "exit_discarded": 0, "exit_then_read": 0}
     histories_part(env, stats)
     programs_part(env, stats)
+    exits_part(env, stats)
     env.note("history_length_distribution", {str(k): v for k, v in sorted(stats["len"].items())})
     env.note("history_op_distribution", dict(sorted(stats["ops"].items())))
     env.note("exhaustive_histories", stats.get("exhaustive_histories", 0))
@@ -656,6 +1073,12 @@ def run(env):
     env.note("programs", stats.get("programs", 0))
     env.note("program_item_distribution", dict(sorted(stats["prog_items"].items())))
     env.note("program_decoded_history_length_distribution", {str(k): v for k, v in sorted(stats["prog_len"].items())})
+    env.note("early_exit_programs", {"run": stats.get("exit_programs", 0), "sweep_candidates": stats.get("exit_sweep", 0),
+                                     "discarded_as_too_long": stats["exit_discarded"],
+                                     "with_a_read_after_an_exit_taken": stats["exit_then_read"],
+                                     "input_lists": EXIT_INPUT_LISTS, "random_inputs": "every 5th random program: length 0..4, values 0..9"})
+    env.note("early_exit_item_distribution", dict(sorted(stats["exit_items"].items())))
+    env.note("early_exit_ways_taken", {" in ".join(k): v for k, v in sorted(stats["exit_ways"].items())})
     env.note("violations_by_part", dict(sorted(stats["caught"].items())))
     env.note("input_lists", "exhaustive part: [] [3] [3,4] [3,4,5] [3,4,5,6]; random part: length 0..4, values 0..9 (duplicates and 0 included)")
     env.sample({"obligation": "C11_top: forall ins h, ins <> [] -> well_scoped h -> forall j < |top_vals|, nth j top_vals = nth (j mod |ins|) ins"})
@@ -663,6 +1086,9 @@ def run(env):
     env.assume("ctx.reverse_flag = ctx.retain_popped = False (no r flag, no retaining modifier): pop returns the items in popping order")
     env.assume("values are modelled as integers; get_input, pop and the templates never inspect the values they move")
     env.assume("histories are well scoped: ctx.inputs.pop() is only executed by a template that pushed before (never at depth 1)")
+    env.assume("part (4): what X / x do to the control flow is taken as the language has it (X returns from a λ after the λ's implicit read of its result, "
+               "breaks a for / while loop, does nothing in ƛ ' µ bodies, named functions and at top level; x calls the enclosing λ again, continues a for loop, "
+               "reads nothing elsewhere; x referring to a while loop is not written: which iterations then run depends on the `condition` variable shared with the ifs of the body); the map / filter results are observed through ∑ only (forcing them later would move the reads)")
     env.assume("the hand-written model equals helpers.get_input / pop / the templates (checked by the correspondence, not proved)")
 
 
